@@ -33,6 +33,51 @@ pub fn main(args: &[String]) -> i32 {
                 Err(e) => format!("Err({:?})", e),
             }
         }),
+        c if c.starts_with("diff:") => {
+            // differential run: the real code and the executable twin of the specification on the same scripted timer
+            let calls: Vec<String> = c[5..].split('+').map(|s| s.to_string()).collect();
+            let (base, deltas) = (base, args[3].split(',').map(|s| s.parse::<u64>().unwrap()).collect::<Vec<u64>>());
+            let cnt = count.clone();
+            guarded(move || {
+                let mut script = crate::jitter_ref::Script::new(base, deltas.clone());
+                let mut twin = crate::jitter_ref::RefJitter::new();
+                if rounds > 0 { twin.rounds = rounds; }
+                let mut out = String::from("agree");
+                for (i, c) in calls.iter().enumerate() {
+                    let before = cnt.load(Ordering::SeqCst);
+                    // the twin first: if the timer is stuck for too long the real call would not return either
+                    let (exp, real): (Option<String>, String) = match c.as_str() {
+                        "next_u64" => { let e = twin.next_u64(&mut script, 4000); if e.is_none() { out = format!("skipped: stuck timer at call {}", i); break; } (e.map(|v| format!("{:#x}", v)), format!("{:#x}", rng.next_u64())) }
+                        "next_u32" => { let e = twin.next_u32(&mut script, 4000); if e.is_none() { out = format!("skipped: stuck timer at call {}", i); break; } (e.map(|v| format!("{:#x}", v)), format!("{:#x}", rng.next_u32())) }
+                        "clone_next_u32" => {
+                            // a clone never holds a pending half: its first output is a fresh collection on the shared script
+                            let mut t2 = crate::jitter_ref::RefJitter { data: twin.data, rounds: twin.rounds, half: false };
+                            let e = t2.next_u32(&mut script, 4000); if e.is_none() { out = format!("skipped: stuck timer at call {}", i); break; }
+                            (e.map(|v| format!("{:#x}", v)), format!("{:#x}", rng.clone().next_u32()))
+                        }
+                        f if f.starts_with("fill:") => {
+                            let n: usize = f[5..].parse().unwrap();
+                            let e = twin.fill(n, &mut script, 4000); if e.is_none() { out = format!("skipped: stuck timer at call {}", i); break; }
+                            let mut b = vec![0u8; n]; rng.fill_bytes(&mut b);
+                            (e.map(|v| format!("{:02x?}", v)), format!("{:02x?}", b))
+                        }
+                        "test_timer" => {
+                            let r = rng.test_timer();
+                            let obs: Result<u8, String> = r.map_err(|e| format!("{:?}", e));
+                            match crate::jitter_ref::check_test_timer(base, &deltas, &obs) {
+                                Ok(()) => (Some(format!("{:?}", obs)), format!("{:?}", obs)),
+                                Err(why) => (Some(why), format!("{:?}", obs)),
+                            }
+                        }
+                        _ => (None, "?".to_string()),
+                    };
+                    let reads = cnt.load(Ordering::SeqCst) - before;
+                    if c != "test_timer" && reads != script.k - (before) { out = format!("MISMATCH at call {} ({}): real code read the timer {} times, the documented procedure {} times", i, c, reads, script.k - before); break; }
+                    if exp.as_deref() != Some(real.as_str()) { out = format!("MISMATCH at call {} ({}): real {} expected {}", i, c, real, exp.unwrap_or_default()); break; }
+                }
+                out
+            })
+        }
         c if c.starts_with("seq:") => {
             // a sequence of calls, e.g. seq:next_u32+fill:4 ; prints each result with the number of timer readings it consumed
             let calls: Vec<String> = c[4..].split('+').map(|s| s.to_string()).collect();
